@@ -48,18 +48,54 @@ func runEngineI(p *Prog, o *obls) {
 			continue
 		}
 		n++
-		key := funcKey(c.Fn)
+		key := closureKey(c)
 		pos := p.Pos(c.Fn.Pos())
 		var p1, p2 []string
 		// allocation sites: atomic read-modify-write calls on a field
 		var allocs []*ssa.Call
+		atomicOf := map[*ssa.Call]*ssa.Call{} // allocation site in the closure → the atomic call that performs it
 		instrsOf(c.Fn, func(in ssa.Instruction) {
 			if call, ok := in.(*ssa.Call); ok {
 				if name, ok := isAtomicCall(&call.Call); ok {
 					if strings.HasPrefix(name, "Add") {
 						allocs = append(allocs, call)
+						atomicOf[call] = call
 					} else {
 						p1 = append(p1, fmt.Sprintf("%s at %s is not a read-modify-write: two writers can obtain the same number", name, p.instrPos(call)))
+					}
+					return
+				}
+				// an allocation helper: a repository function that performs exactly one atomic Add on every path and
+				// returns a value computed from it (takeSequenceNumber())
+				if sc := call.Call.StaticCallee(); sc != nil && p.InUniverse(sc) && sc.Blocks != nil && sc != c.Fn {
+					var inner []*ssa.Call
+					instrsOf(sc, func(in2 ssa.Instruction) {
+						if c2, ok := in2.(*ssa.Call); ok {
+							if name, ok := isAtomicCall(&c2.Call); ok && strings.HasPrefix(name, "Add") {
+								inner = append(inner, c2)
+							}
+						}
+					})
+					if len(inner) != 1 {
+						return
+					}
+					bf, _ := pathCounts(sc, func(i3 ssa.Instruction) bool { return i3 == ssa.Instruction(inner[0]) })
+					once, derives := true, false
+					for _, b := range sc.Blocks {
+						if ret, ok := b.Instrs[len(b.Instrs)-1].(*ssa.Return); ok && b != sc.Recover {
+							if bf[ret] != 2 {
+								once = false
+							}
+							for _, r := range ret.Results {
+								if p.backwardReaches(r, func(v ssa.Value) bool { return v == ssa.Value(inner[0]) }) {
+									derives = true
+								}
+							}
+						}
+					}
+					if once && derives {
+						allocs = append(allocs, call)
+						atomicOf[call] = inner[0]
 					}
 				}
 			}
@@ -73,8 +109,8 @@ func runEngineI(p *Prog, o *obls) {
 					if !instrDominates(a, se) {
 						p2 = append(p2, fmt.Sprintf("the allocation at %s does not dominate SetExtension at %s", p.instrPos(a), p.instrPos(se)))
 					}
-					if len(a.Call.Args) < 2 || !isConstInt(a.Call.Args[1], 1) {
-						p1 = append(p1, fmt.Sprintf("the counter is advanced by %s, not by the constant 1: numbers are not consecutive", valueString(a.Call.Args[1])))
+					if at := atomicOf[a]; len(at.Call.Args) < 2 || !isConstInt(at.Call.Args[1], 1) {
+						p1 = append(p1, fmt.Sprintf("the counter is advanced by %s, not by the constant 1: numbers are not consecutive", valueString(at.Call.Args[1])))
 					}
 				}
 			}
@@ -92,7 +128,7 @@ func runEngineI(p *Prog, o *obls) {
 					return false
 				}
 				for _, a := range allocs {
-					if afa, ok := a.Call.Args[0].(*ssa.FieldAddr); ok && fieldKeyAddr(afa) == fieldKeyAddr(fa) {
+					if afa, ok := atomicOf[a].Call.Args[0].(*ssa.FieldAddr); ok && fieldKeyAddr(afa) == fieldKeyAddr(fa) {
 						return true
 					}
 				}
@@ -579,10 +615,47 @@ func l1l2(p *Prog, o *obls, fn *ssa.Function, gs gateSpec) {
 			}
 		}
 	})
-	if len(headStores) == 0 {
+	var p2 []string
+	nDelegated := 0
+	// head stores in a helper of the same object that receives the queue call's error (`popped(pkt, err, advance)`)
+	instrsOf(fn, func(in ssa.Instruction) {
+		call, ok := in.(*ssa.Call)
+		if !ok {
+			return
+		}
+		h := call.Call.StaticCallee()
+		if h == nil || !p.InUniverse(h) || h.Blocks == nil || h == fn || len(call.Call.Args) == 0 || len(fn.Params) == 0 || p.origin(call.Call.Args[0]) != ssa.Value(fn.Params[0]) {
+			return
+		}
+		instrsOf(h, func(in2 ssa.Instruction) {
+			st, ok := in2.(*ssa.Store)
+			if !ok {
+				return
+			}
+			fa, ok := st.Addr.(*ssa.FieldAddr)
+			if !ok || fieldKeyAddr(fa) != headKey {
+				return
+			}
+			nDelegated++
+			guarded := false
+			for i, q := range h.Params {
+				if !isErrorType(q.Type()) || p.nilnessAt(q, st.Block()) != -1 || i >= len(call.Call.Args) {
+					continue
+				}
+				for _, qc := range qcalls {
+					if fe := errExtract(qc); fe != nil && p.origin(call.Call.Args[i]) == ssa.Value(fe) && canReach(qc, call) {
+						guarded = true
+					}
+				}
+			}
+			if !guarded {
+				p2 = append(p2, fmt.Sprintf("the playout head is advanced at %s (in %s, called at %s) without the queue call's error being known nil there", p.instrPos(st), funcKey(h), p.instrPos(call)))
+			}
+		})
+	})
+	if len(headStores) == 0 && nDelegated == 0 {
 		return
 	}
-	var p2 []string
 	for _, st := range headStores {
 		ok := false
 		for _, qc := range qcalls {
@@ -597,7 +670,7 @@ func l1l2(p *Prog, o *obls, fn *ssa.Function, gs gateSpec) {
 	if len(p2) > 0 {
 		o.bad("L2", key, pos, strings.Join(p2, "; "))
 	} else {
-		o.ok("L2", key, pos, fmt.Sprintf("%d store(s) to the playout head, all on the success branch of the queue call", len(headStores)))
+		o.ok("L2", key, pos, fmt.Sprintf("%d store(s) to the playout head, all on the success branch of the queue call", len(headStores)+nDelegated))
 	}
 }
 
